@@ -205,7 +205,7 @@ func (fc *FuncCtx) call(fr *Frame, st *State, res ssa.Value, call *ssa.CallCommo
 		return
 	}
 	// 2. contract
-	if c := fc.p.contractOf(callee); c != nil && !c.Inline {
+	if c := fc.p.contractOf(callee); c != nil && !c.Inline && !fc.inlineRequested(callee) {
 		if c.Trusted {
 			fc.note("trusted contract for " + fullName(callee) + ": " + c.TrustWhy)
 		}
@@ -219,12 +219,19 @@ func (fc *FuncCtx) call(fr *Frame, st *State, res ssa.Value, call *ssa.CallCommo
 			unsupp("inlining too deep at %s", callee)
 		}
 		c := fc.p.contractOf(callee)
-		if c == nil && hasLoop(callee) {
+		inl := fc.inlLoopsFor(callee)
+		if c == nil && hasLoop(callee) && inl == nil {
 			unsupp("call of %s at %s: callee has loops and no contract", funcKey(callee), fc.p.pos(pos))
+		}
+		if c != nil && !c.Inline {
+			// inlined on request of the function under verification: its own loop clauses are not used
+			c = nil
 		}
 		nf := fc.newFrame(callee, fr.prefix+">"+funcKey(callee), false)
 		nf.contract = c
 		nf.depth = fr.depth + 1
+		nf.parent = fr
+		nf.inlLoops = inl
 		fc.inlined[fullName(callee)] = true
 		if hasLoop(callee) {
 			if fc.inlinedWithLoops == nil {
@@ -256,6 +263,49 @@ func (fc *FuncCtx) call(fr *Frame, st *State, res ssa.Value, call *ssa.CallCommo
 		return
 	}
 	unsupp("call of %s at %s: no contract, no model, not inlinable", fullName(callee), fc.p.pos(pos))
+}
+
+// inlineRequested: the contract of the function under verification gives loop clauses for this callee
+// ("loop <n> in <callee>"), i.e. asks for the callee to be inlined here with these invariants.
+func (fc *FuncCtx) inlineRequested(callee *ssa.Function) bool {
+	if fc.contract == nil {
+		return false
+	}
+	for k := range fc.contract.InlLoops {
+		if i := strings.LastIndex(k, "#"); i >= 0 {
+			k = k[:i]
+		}
+		if k == funcKey(callee) || k == fullName(callee) {
+			return true
+		}
+	}
+	return false
+}
+
+// inlLoopsFor: the loop clauses for the inlining of callee that is about to start (counted per callee:
+// "<callee>#k" names the k-th inlining only, "<callee>" every inlining).
+func (fc *FuncCtx) inlLoopsFor(callee *ssa.Function) map[int]*LoopContract {
+	if !fc.inlineRequested(callee) {
+		return nil
+	}
+	if fc.inlineCount == nil {
+		fc.inlineCount = map[string]int{}
+		fc.inlLoopsSeen = map[string]bool{}
+	}
+	fc.inlineCount[fullName(callee)]++
+	n := fc.inlineCount[fullName(callee)]
+	out := map[int]*LoopContract{}
+	for _, base := range []string{funcKey(callee), fullName(callee)} {
+		for _, k := range []string{base, fmt.Sprintf("%s#%d", base, n)} {
+			if m, ok := fc.contract.InlLoops[k]; ok {
+				fc.inlLoopsSeen[k] = true
+				for i, lc := range m {
+					out[i] = lc
+				}
+			}
+		}
+	}
+	return out
 }
 
 // havocClosureArgs: a callee used through its contract may run the function literals it is given.
